@@ -51,6 +51,9 @@ type node struct {
 	budget      uint32
 	hasBudget   bool
 	wantCleared bool
+	wrap        int  // wrappers around it in the slot of its parent (valid while parent != nil)
+	idxReported bool // the mutableElementIndex oracle has spoken about this array
+	inlReported bool // the inline-rule oracle has spoken about this container
 }
 
 type nestEnv struct {
@@ -412,7 +415,7 @@ func (e *nestEnv) insertInto(p *node, v sval) bool {
 		p.kv[k] = v
 	}
 	if v.child != nil {
-		v.child.parent = p
+		v.child.parent, v.child.wrap = p, v.wrap
 		v.child.hasBudget, v.child.wantCleared = false, false
 	}
 	e.mutatedDetached(p)
@@ -455,6 +458,9 @@ func (e *nestEnv) mutatePlain(n *node, prop string) {
 	defer func() {
 		if e.mutated {
 			e.mutatedDetached(n)
+			if e.ext {
+				e.checkInlineRule(n)
+			}
 		}
 	}()
 	prof := e.rng.Intn(4)
@@ -1388,7 +1394,7 @@ func (e *nestEnv) opDetach() {
 			if err == nil {
 				p.elems[i] = repl
 				if repl.child != nil {
-					repl.child.parent = p
+					repl.child.parent, repl.child.wrap = p, repl.wrap
 				}
 			}
 		} else {
@@ -1414,7 +1420,7 @@ func (e *nestEnv) opDetach() {
 			if err == nil {
 				p.kv[k] = repl
 				if repl.child != nil {
-					repl.child.parent = p
+					repl.child.parent, repl.child.wrap = p, repl.wrap
 				}
 			}
 		} else {
@@ -1837,7 +1843,8 @@ func (e *nestEnv) handleState() {
 			}
 			key := func(x string) string { return strings.SplitN(x, "=", 2)[0] }
 			sort.Slice(want, func(i, j int) bool { return key(want[i]) < key(want[j]) }) // the hook sorts by value ID
-			if w := strings.Join(want, ","); w != got {
+			if w := strings.Join(want, ","); w != got && !n.idxReported {
+				n.idxReported = true
 				props := []string{"C10"}
 				have := map[string]bool{}
 				for _, x := range want {
@@ -1853,6 +1860,7 @@ func (e *nestEnv) handleState() {
 		} else {
 			fmt.Fprintf(&sb, " %d:%s", n.h, b01(u))
 		}
+		e.checkInlineRule(n)
 		if n.parent != nil && !u {
 			e.violation("C10", fmt.Sprintf("container %d sits in container %d but its current handle has no parent callback: mutations through it cannot reach the parent", n.h, n.parent.h))
 		}
@@ -2064,7 +2072,7 @@ func (e *nestEnv) opRewrap(c *node) {
 		w.L("OP aset h=%d i=%d v=%s", p.h, i, valStr(nv))
 		old, err = p.arr.Set(uint64(i), nv.atreeValue())
 		if err == nil {
-			p.elems[i] = nv
+			p.elems[i], c.wrap = nv, nv.wrap
 		}
 	} else {
 		var key *hx.TV
@@ -2081,7 +2089,7 @@ func (e *nestEnv) opRewrap(c *node) {
 		w.L("OP mset h=%d k=%s v=%s", p.h, e.keyStr(p, *key), valStr(nv))
 		old, err = p.mp.Set(hx.CompareKey, e.hi(), *key, nv.atreeValue())
 		if err == nil {
-			p.kv[*key] = nv
+			p.kv[*key], c.wrap = nv, nv.wrap
 		}
 	}
 	if err != nil {
@@ -2097,4 +2105,26 @@ func (e *nestEnv) opRewrap(c *node) {
 		e.violation("C10", fmt.Sprintf("overwriting the slot of standalone container %d by the same container: handed back %s, not a reference to it", c.h, renderStorable(old)))
 	}
 	e.mutatedDetached(p)
+}
+
+// checkInlineRule (C10, second sentence: "a child is stored inline in its parent exactly when it
+// occupies one slab that fits the parent's per-element limit and as a separate slab otherwise"),
+// stated with the library's own public predicates: for a container in slot (parent, wrappers),
+// Inlined() == Inlinable(per-element limit of the parent - wrapper bytes).  Holds between any two
+// operations under the one-current-handle discipline (every mutator re-decides through the parent).
+func (e *nestEnv) checkInlineRule(n *node) {
+	if n.parent == nil || n.inlReported {
+		return
+	}
+	b := slotBudget(n.parent, n.wrap)
+	inl := false
+	if n.kind == 'a' {
+		inl = n.arr.Inlined()
+	} else {
+		inl = n.mp.Inlined()
+	}
+	if able := n.inlinable(b); inl != able {
+		n.inlReported = true
+		e.violation("C10", fmt.Sprintf("container %d in container %d under %d wrappers: Inlined() = %v but Inlinable(%d) = %v (per-element limit of the parent minus the wrapper bytes): not stored inline exactly when it fits", n.h, n.parent.h, n.wrap, inl, b, able))
+	}
 }
